@@ -53,9 +53,15 @@ def pristine():
     dft = compute_features(sig, FS, FR, center_extrema='trough', threshold_kwargs=copy.deepcopy(thr))
     dfa = compute_features(sig, FS, FR, burst_method='amp', threshold_kwargs=copy.deepcopy(thra), burst_kwargs=copy.deepcopy(bk))
     dfs = compute_shape_features(sig, FS, FR)
+    strict = dict(thr, monotonicity_threshold=1., amp_consistency_threshold=1.)
+    dfnb = compute_features(sig, FS, FR, threshold_kwargs=copy.deepcopy(strict))      # a table without any burst
+    bk8 = {'amp_threshes': (.5, 1.), 'min_n_cycles': 8}
     p, t = find_extrema(sig, FS, FR)
     r, d = find_zerox(sig, p, t)
-    return dict(sig=sig, thr=thr, thra=thra, thram=thram, bk=bk, bkm=bkm, bkfull=bkfull, fek=fek, sigs2=sigs2, sigs3=sigs3,
+    bufA = S.word_signal('aadaaazzaaaadaan')
+    bufB = 2.0 * S.word_signal('bbnbbdabbbzbbeaa') + 1.0
+    buf = np.zeros(len(bufA))
+    return dict(buf=buf, bufA=bufA, bufB=bufB, dfnb=dfnb, bk8=bk8, sig=sig, thr=thr, thra=thra, thram=thram, bk=bk, bkm=bkm, bkfull=bkfull, fek=fek, sigs2=sigs2, sigs3=sigs3,
                 cfk=cfk, cfka=cfka, cfkl=cfkl, cfkl2=cfkl2, dfc=dfc, dft=dft, dfa=dfa, dfs=dfs, p=p, t=t, r=r, d=d)
 
 
@@ -76,6 +82,16 @@ def alphabet():
         'cf_amp_m': lambda s: compute_features(s['sig'], FS, FR, burst_method='amp', threshold_kwargs=s['thram'], burst_kwargs=s['bkm']),
         'cf_amp_t': lambda s: compute_features(s['sig'], FS, FR, burst_method='amp', threshold_kwargs=s['thram'], burst_kwargs=s['bk']),
         'cf_nosamp': lambda s: compute_features(s['sig'], FS, FR, threshold_kwargs=s['thr'], return_samples=False),
+        # the caller re-uses one pre-allocated array (overwritten in place by the caller between calls)
+        'cf_buf_A': lambda s: (s['buf'].__setitem__(slice(None), s['bufA']), compute_features(s['buf'], FS, FR, threshold_kwargs=s['thr']))[1],
+        'cf_buf_B': lambda s: (s['buf'].__setitem__(slice(None), s['bufB']), compute_features(s['buf'], FS, FR, threshold_kwargs=s['thr']))[1],
+        'shape_buf_B': lambda s: (s['buf'].__setitem__(slice(None), s['bufB']), compute_shape_features(s['buf'], FS, FR))[1],
+        # default-argument paths: no thresholds / no options given
+        'cf_default': lambda s: compute_features(s['sig'], FS, FR),
+        'cf_default_t': lambda s: compute_features(s['sig'], FS, FR, center_extrema='trough'),
+        'cf_amp_default': lambda s: compute_features(s['sig'], FS, FR, burst_method='amp'),
+        'cf_amp_nothr_m8': lambda s: compute_features(s['sig'], FS, FR, burst_method='amp', burst_kwargs=s['bk8']),
+        'edges_noburst': lambda s: recompute_edges(s['dfnb'], s['thr']),
         'shape': lambda s: compute_shape_features(s['sig'], FS, FR, find_extrema_kwargs=s['fek']),
         'shape_t': lambda s: compute_shape_features(s['sig'], FS, FR, center_extrema='trough'),
         'cyclepoints': lambda s: compute_cyclepoints(s['sig'], FS, FR, **s['fek']),
@@ -116,18 +132,19 @@ def alphabet():
     return A
 
 
-NAMES = ['cf_cycles', 'cf_trough', 'cf_amp', 'cf_amp_m', 'cf_amp_t', 'cf_nosamp', 'shape', 'shape_t', 'cyclepoints',
+NAMES = ['cf_default', 'cf_default_t', 'cf_amp_default', 'cf_amp_nothr_m8', 'edges_noburst', 'cf_buf_A', 'cf_buf_B', 'shape_buf_B', 'cf_cycles', 'cf_trough', 'cf_amp', 'cf_amp_m', 'cf_amp_t', 'cf_nosamp', 'shape', 'shape_t', 'cyclepoints',
          'burstfeat_c', 'burstfeat_a', 'ampfrac', 'ampcons', 'percons', 'mono', 'bfrac', 'extrema', 'zerox', 'phase',
          '2d_dict', '2d_amp', '2d_list', '2d_none', '2d_none_list', '3d', '3d_1', '3d01', 'edges', 'edges_t', 'limit',
          'limit_t', 'epoch', 'epoch_t', 'drop', 'plt_summary', 'plt_summary_t', 'plt_summary_a', 'plt_param', 'plt_cpdf',
          'plt_cparr', 'plt_hist', 'plt_cat']
-CORE = ['cf_cycles', 'cf_amp_m', 'cf_amp_t', 'cf_trough', 'burstfeat_a', '2d_amp', '2d_none_list', '3d01', 'edges', 'limit_t',
+CORE = ['cf_default', 'cf_amp_nothr_m8', 'edges_noburst', 'cf_buf_A', 'cf_buf_B', 'cf_cycles', 'cf_amp_m', 'cf_amp_t', 'cf_trough', 'burstfeat_a', '2d_amp', '2d_none_list', '3d01', 'edges', 'limit_t',
         'epoch', 'plt_summary']
 REF = {}          # call name -> fingerprint hash of its fresh-state result (filled before the workers are forked)
 
 
 def state_fp(s):
-    return h64(repr((fingerprint(s), repr(pd.options.mode.chained_assignment))))
+    # 'buf' is the caller's own scratch array (the harness overwrites it between calls): not part of the state
+    return h64(repr((fingerprint({k: v for k, v in s.items() if k != 'buf'}), repr(pd.options.mode.chained_assignment))))
 
 
 def result_fp(r):
@@ -144,7 +161,7 @@ def run_history(hist):
     A = alphabet()
     s = pristine()
     f0 = state_fp(s)
-    base = {k: fingerprint(v) for k, v in s.items()}
+    base = {k: fingerprint(v) for k, v in s.items() if k != 'buf'}
     steps = []
     for name in hist:
         np.random.seed(0)
@@ -155,7 +172,7 @@ def run_history(hist):
             rf, err = None, '%s: %s' % (type(e).__name__, str(e)[:200])
         plt.close('all')
         f1 = state_fp(s)
-        changed = [k for k in s if fingerprint(s[k]) != base[k]] if f1 != f0 else []
+        changed = [k for k in base if fingerprint(s[k]) != base[k]] if f1 != f0 else []
         steps.append({'call': name, 'result': rf, 'error': err, 'state_changed': changed})
         if changed or err:
             break
